@@ -2,8 +2,9 @@
    Only statements here; every proof is `exact <lemma>` into Own/EnvProofs.v and Own/DlProofs.v.
    env part: getenv is ANY function from names to "unset" or a value.
    dl part: w is ANY world (which files and symbols exist); d_init n = a pool of n empty owner variables;
-   d_run w st ops = the state after ANY list of open / load / get / copy / move / destroy / call operations (and of
-   unrelated code leaving a loader error pending), failed opens and failed look-ups included. *)
+   d_run w st ops = the state after ANY list of open / load / get / copy-construct / move-construct / copy-assign /
+   move-assign / swap / destroy / call operations (and of unrelated code leaving a loader error pending), failed opens
+   and failed look-ups included. An owner object whose shared_ptr was moved from stays in the pool as a null owner. *)
 From Coq Require Import List Arith Bool.
 From Coq Require Import Init.Byte.
 From Coq Require Strings.String.
@@ -71,14 +72,30 @@ Theorem C19_null_never_closed : forall w n ops, null_closes (d_run w (d_init n) 
 Proof. exact null_never_closed. Qed.
 Print Assumptions C19_null_never_closed.
 
-(* a call through any existing symbol object finds its library mapped (also after the library object is gone) *)
+(* a symbol object that owns a library — however it got its contents: load, copy, move, ASSIGNMENT, swap — holds a
+   function of exactly that library, and a call through it finds the library mapped (also after the library object
+   and every other owner is gone) *)
 Theorem C19_call_while_mapped : forall w n ops i x,
   let st := d_run w (d_init n) ops in
   snd (d_step w st (DCall i x)) <> DUnmapped /\
-  (forall h s, slot_owner st i = Some (OSym h s) ->
-     exists r, nth_error (hs st) h = Some r /\ closes r = 0 /\ snd (d_step w st (DCall i x)) = DCallOk (hlib r) s x).
+  (forall h fh s, slot_owner st i = Some (OSym (Some h) fh s) ->
+     fh = h /\ exists r, nth_error (hs st) h = Some r /\ closes r = 0
+                       /\ snd (d_step w st (DCall i x)) = DCallOk (hlib r) s x).
 Proof. exact call_while_mapped. Qed.
 Print Assumptions C19_call_while_mapped.
+
+(* assignment between two existing objects of the same kind: the target holds what the source holds (handle and, for a
+   symbol, function); a moved-from source keeps nothing; swap exchanges — in every state. With C19_closed_iff_unowned:
+   the target's previous library is closed exactly if the target was its last owner, the new one stays mapped *)
+Theorem C19_assign_transfers : forall w st i j a b,
+  slot_owner st i = Some a -> slot_owner st j = Some b -> same_kind a b = true ->
+  slot_owner (fst (d_step w st (DAssign i j))) i = Some b /\
+  (i <> j -> slot_owner (fst (d_step w st (DMoveAssign i j))) i = Some b /\
+             slot_owner (fst (d_step w st (DMoveAssign i j))) j = Some (with_h b None)) /\
+  (i <> j -> slot_owner (fst (d_step w st (DSwap i j))) i = Some b /\
+             slot_owner (fst (d_step w st (DSwap i j))) j = Some a).
+Proof. exact assign_transfers. Qed.
+Print Assumptions C19_assign_transfers.
 
 (* opening a missing library raises the dl exception carrying the loader's diagnostic of this very failure and
    creates / closes nothing — in every state, whatever error was pending before *)
@@ -91,7 +108,7 @@ Print Assumptions C19_failed_open_creates_nothing.
 Theorem C19_open_creates_one : forall w st i f,
   slot_empty st i = true -> lib_exists w f = true ->
   d_step w st (DOpen i f) =
-    (mkD (hs st ++ [mkH f 1 0]) (setn (slots st) i (Some (OLib (length (hs st))))) (pend st) (null_closes st), DOk).
+    (mkD (hs st ++ [mkH f 1 0]) (setn (slots st) i (Some (OLib (Some (length (hs st)))))) (pend st) (null_closes st), DOk).
 Proof. exact open_creates_one. Qed.
 Print Assumptions C19_open_creates_one.
 
@@ -99,7 +116,7 @@ Print Assumptions C19_open_creates_one.
    (every handle, every owner) exactly as it was *)
 Theorem C19_failed_load_keeps_library : forall w n ops i j h s r,
   let st := d_run w (d_init n) ops in
-  slot_empty st i = true -> slot_owner st j = Some (OLib h) -> nth_error (hs st) h = Some r ->
+  slot_empty st i = true -> slot_owner st j = Some (OLib (Some h)) -> nth_error (hs st) h = Some r ->
   sym_exists w (hlib r) s = false ->
   d_step w st (DLoad i j s) = (mkD (hs st) (slots st) None (null_closes st), DRaise (Some (DgSym (hlib r) s))).
 Proof. exact failed_load_keeps_library. Qed.
@@ -108,9 +125,9 @@ Print Assumptions C19_failed_load_keeps_library.
 (* a look-up of an existing symbol succeeds whatever loader error unrelated code left pending (dlerror() is cleared first) *)
 Theorem C19_load_ignores_stale_error : forall w n ops i j h s r,
   let st := d_run w (d_init n) ops in
-  slot_empty st i = true -> slot_owner st j = Some (OLib h) -> nth_error (hs st) h = Some r ->
+  slot_empty st i = true -> slot_owner st j = Some (OLib (Some h)) -> nth_error (hs st) h = Some r ->
   sym_exists w (hlib r) s = true ->
-  snd (d_step w st (DLoad i j s)) = DOk /\ slot_owner (fst (d_step w st (DLoad i j s))) i = Some (OSym h s).
+  snd (d_step w st (DLoad i j s)) = DOk /\ slot_owner (fst (d_step w st (DLoad i j s))) i = Some (OSym (Some h) h s).
 Proof. exact load_ignores_stale_error. Qed.
 Print Assumptions C19_load_ignores_stale_error.
 
@@ -144,6 +161,16 @@ Definition h1 := [DOpen 0 0; DLoad 1 0 0; DCopy 2 1; DDrop 0; DDrop 1].
 Example C19_ex_symbol_outlives : map closes (hs (d_run w0 (d_init 3) h1)) = [0] /\ snd (d_step w0 (d_run w0 (d_init 3) h1) (DCall 2 5)) = DCallOk 0 0 5.
 Proof. split; reflexivity. Qed.
 Example C19_ex_last_owner_closes : map closes (hs (d_run w0 (d_init 3) (h1 ++ [DDrop 2]))) = [1].
+Proof. reflexivity. Qed.
+(* assignment between symbols of different libraries: the target lets go of library a (closed, it was the last owner)
+   and keeps library b mapped after b's library object and original symbol are gone *)
+Definition h2 := [DOpen 0 0; DOpen 1 1; DLoad 2 0 0; DLoad 3 1 0; DDrop 0; DAssign 2 3; DDrop 1; DDrop 3].
+Example C19_ex_assign_keeps_mapped : map closes (hs (d_run w0 (d_init 4) h2)) = [1; 0]
+  /\ snd (d_step w0 (d_run w0 (d_init 4) h2) (DCall 2 5)) = DCallOk 1 0 5.
+Proof. split; reflexivity. Qed.
+Example C19_ex_move_assign_source_null :
+  slots (d_run w0 (d_init 4) [DOpen 0 0; DOpen 1 1; DLoad 2 0 0; DLoad 3 1 1; DMoveAssign 2 3])
+  = [Some (OLib (Some 0)); Some (OLib (Some 1)); Some (OSym (Some 1) 1 1); Some (OSym None 1 1)].
 Proof. reflexivity. Qed.
 Example C19_ex_failed_open : d_step w0 (d_run w0 (d_init 3) [DStale 7]) (DOpen 0 5) = (mkD [] [None; None; None] None 0, DRaise (Some (DgOpen 5))).
 Proof. reflexivity. Qed.
